@@ -5,6 +5,7 @@ import (
 	"reflect"
 	"unsafe"
 
+	"github.com/goccy/go-json/internal/errors"
 	"github.com/goccy/go-json/internal/runtime"
 )
 
@@ -28,6 +29,15 @@ func newWrappedStringDecoder(typ *runtime.Type, dec Decoder, structName, fieldNa
 	}
 }
 
+// trailingError reports that the quoted payload holds more than the one value the
+// wrapped decoder consumed (e.g. "12abc" for an integer).
+func (d *wrappedStringDecoder) trailingError(payload []byte, end, offset int64) error {
+	return errors.ErrSyntax(
+		fmt.Sprintf("invalid character '%c' after quoted value", payload[end]),
+		offset,
+	)
+}
+
 func (d *wrappedStringDecoder) DecodeStream(s *Stream, depth int64, p unsafe.Pointer) error {
 	bytes, err := d.stringDecoder.decodeStreamByte(s)
 	if err != nil {
@@ -41,8 +51,12 @@ func (d *wrappedStringDecoder) DecodeStream(s *Stream, depth int64, p unsafe.Poi
 	}
 	b := make([]byte, len(bytes)+1)
 	copy(b, bytes)
-	if _, err := d.dec.Decode(&RuntimeContext{Buf: b}, 0, depth, p); err != nil {
+	c, err := d.dec.Decode(&RuntimeContext{Buf: b}, 0, depth, p)
+	if err != nil {
 		return err
+	}
+	if c != int64(len(bytes)) {
+		return d.trailingError(b, c, s.totalOffset())
 	}
 	return nil
 }
@@ -61,10 +75,14 @@ func (d *wrappedStringDecoder) Decode(ctx *RuntimeContext, cursor, depth int64, 
 	bytes = append(bytes, nul)
 	oldBuf := ctx.Buf
 	ctx.Buf = bytes
-	if _, err := d.dec.Decode(ctx, 0, depth, p); err != nil {
+	end, err := d.dec.Decode(ctx, 0, depth, p)
+	ctx.Buf = oldBuf
+	if err != nil {
 		return 0, err
 	}
-	ctx.Buf = oldBuf
+	if end != int64(len(bytes)-1) {
+		return 0, d.trailingError(bytes, end, c)
+	}
 	return c, nil
 }
 
